@@ -26,6 +26,7 @@ import (
 	"os/exec"
 	"path/filepath"
 	"regexp"
+	"runtime/debug"
 	"sort"
 	"strings"
 	"sync"
@@ -172,6 +173,7 @@ type node struct {
 
 	mu       sync.Mutex
 	returned map[string]time.Time
+	panics   [][2]string // (loop, panic value and stack)
 	selfStop time.Time
 	errCh    chan error
 	halted   chan struct{}
@@ -445,6 +447,23 @@ func (n *node) spawnWorker(wg *sync.WaitGroup, root string, f func()) {
 	wg.Add(1)
 	go func() {
 		defer wg.Done()
+		// FullNode.Run does not recover: a panic in a loop kills the node process.  Here it is recorded as the
+		// failure of this case (with the case as the failing input) instead of killing the whole run.
+		defer func() {
+			if r := recover(); r != nil {
+				st := string(debug.Stack())
+				if i := strings.Index(st, "panic("); i >= 0 {
+					st = st[i:]
+				}
+				if len(st) > 900 {
+					st = st[:900]
+				}
+				n.mu.Lock()
+				n.panics = append(n.panics, [2]string{root, fmt.Sprintf("%v; %s", r, strings.Join(strings.Fields(st), " "))})
+				n.returned[root] = time.Now()
+				n.mu.Unlock()
+			}
+		}()
 		f()
 		n.mu.Lock()
 		n.returned[root] = time.Now()
@@ -613,6 +632,11 @@ func runCase(t *testing.T, c *Case, rootDir string) (out *caseOut) {
 				}
 				return
 			}
+			n1.mu.Lock()
+			for _, pn := range n1.panics {
+				out.fail("loop-panicked-"+pn[0], fmt.Sprintf("first run (before the restart): %s panicked (FullNode.Run does not recover: the node process dies): %s", pn[0], pn[1]))
+			}
+			n1.mu.Unlock()
 			prev = n1
 		}
 		n, err := newNodeOn(buildCtx, c, rootDir, prev)
@@ -696,6 +720,9 @@ func runCase(t *testing.T, c *Case, rootDir string) (out *caseOut) {
 			out.loops = append(out.loops, lo)
 		}
 		out.selfStop = !n.selfStop.IsZero()
+		for _, pn := range n.panics {
+			out.fail("loop-panicked-"+pn[0], fmt.Sprintf("%s panicked (FullNode.Run does not recover: the node process dies): %s", pn[0], pn[1]))
+		}
 		n.mu.Unlock()
 		// release whatever is stuck so that the bubble can end: read what nobody reads, let the sleep run out
 		endCase() // calls still in flight on the construction context return now
@@ -1099,7 +1126,7 @@ func shrinkCase(t *testing.T, c *Case, sig, rootDir string) *Case {
 	return &cur
 }
 
-const ruleText = "the node's loop fan-out as in FullNode.Run (one-slot errCh, five loops per mode, select on errCh / parent context, wg.Wait; compared with node/full.go on every run), real block.Manager / Reaper / store, unmodified loops, in a synctest bubble; the node is constructed with one context and run with another (or, 50% of the in-flight cases, the same, as cmd does), Run derives its own; doubles: execution layer (per-call delay, cancellation lag, may ignore its context, may fail from a height on; in 15% of the cases one external call - any of the 12 the loops make - blocks until the context it was given is done), FIFO sequencer, DA layer (delays, every k-th call fails), broadcasters, P2P stores; aggregator cases (55%): genesis 0..5 s in the past or 0.1..4.1 s in the future, lazy 30%, initial height 1 or 5, pending limit 0/2/5, mempool 0/150/700 ms, DA fast/slow; full-node cases (45%): the proposer's chain of 2..8 blocks made by a real aggregator Manager and submitted with its own code, delivered by DA, P2P or both; stop instant 0, <50 ms or uniform in 0..12 s; verdict 1 s (virtual) after the stop request; plus one fixed scenario per operation the table listed as not cancellable before the repairs (they must now halt) and one 'call in flight at the stop instant' scenario per external call of each loop (16); plus the two writers of the data submission watermark (block production's pending-limit test -> numWaitingData stepping over empty data; one iteration of the data submission loop) called as their loops call them on the real Manager and store, with ONE chosen write of the watermark held in the store wrapper while the other writer runs (5 fixed cases + 1 generated per 12 exploration cases: 0..3 submitted blocks, 1..3 + 1..2 empty / non-empty blocks above the watermark, which writer and which of its writes is held; pending limit = blocks above the watermark), oracle: values written under the watermark key never decrease, recorded = in-memory at rest, a Manager restarted on the same store re-submits nothing the DA layer accepted; plus a pass of the same binary under the race detector (quick: 8 aggregator scenarios with both submission loops in the same DA tick, the two-writers cases, 24 generated cases); non-trivial = at least one block committed; distinct = distinct (mode, lazy, genesis sign, parking positions, stuck positions)"
+const ruleText = "the node's loop fan-out as in FullNode.Run (one-slot errCh, five loops per mode, select on errCh / parent context, wg.Wait; compared with node/full.go on every run), real block.Manager / Reaper / store, unmodified loops, in a synctest bubble; the node is constructed with one context and run with another (or, 50% of the in-flight cases, the same, as cmd does), Run derives its own; doubles: execution layer (per-call delay, cancellation lag, may ignore its context, may fail from a height on; in 15% of the cases one external call - any of the 12 the loops make - blocks until the context it was given is done), FIFO sequencer, DA layer (delays, every k-th call fails), broadcasters, P2P stores; aggregator cases (55%): genesis 0..5 s in the past or 0.1..4.1 s in the future, lazy 30%, initial height 1 or 5, pending limit 0/2/5, mempool 0/150/700 ms, DA fast/slow; full-node cases (45%): the proposer's chain of 2..8 blocks made by a real aggregator Manager and submitted with its own code, delivered by DA, P2P or both; stop instant 0, <50 ms or uniform in 0..12 s; verdict 1 s (virtual) after the stop request; plus one fixed scenario per operation the table listed as not cancellable before the repairs (they must now halt) and one 'call in flight at the stop instant' scenario per external call of each loop (16); plus the two writers of the data submission watermark (block production's pending-limit test -> numWaitingData stepping over empty data; one iteration of the data submission loop) called as their loops call them on the real Manager and store, with ONE chosen write of the watermark held in the store wrapper while the other writer runs (5 fixed cases + 1 generated per 12 exploration cases: 0..3 submitted blocks, 1..3 + 1..2 empty / non-empty blocks above the watermark, which writer and which of its writes is held; pending limit = blocks above the watermark), oracle: values written under the watermark key never decrease, recorded = in-memory at rest, a Manager restarted on the same store re-submits nothing the DA layer accepted; 10% of the aggregator cases observe a RESTARTED node (first run 0.5..6.5 s, stop, new Manager / Reaper on the same store: start-up wait = last block time + block time); fixed scenarios for a stop request during the start-up wait (genesis ahead / after a restart, normal / lazy) and while the broadcasters of a committed block are blocked (normal / lazy); every case under a real-time watchdog (20 s: a loop that never blocks after the stop request freezes the virtual clock; recorded as loop-does-not-return-spinning-or-blocked with the case as input, the run ends there); plus a pass of the same binary under the race detector (quick: 8 aggregator scenarios with both submission loops in the same DA tick, the two-writers cases, 24 generated cases); non-trivial = at least one block committed; distinct = distinct (mode, lazy, genesis sign, parking positions, stuck positions)"
 
 func TestVerif(t *testing.T) {
 	logging.SetAllLoggers(logging.LevelFatal)
